@@ -237,6 +237,31 @@ class FSign:
                 self.fact(d2, Iv(0, INF))
                 self.fact(d1, Iv(-INF, 0))
 
+    def _seq_elem_rng(self, seq, depth=0):
+        """Range of an arbitrary element of a sequence term: hull over the stored-element fact of the underlying buffer
+        (('elems', ('in', q)), a derived fact: every value ever pushed lies in that range and the buffer starts empty) and
+        the values pushed by the term itself. None if some part is unknown."""
+        if depth > 12 or not isinstance(seq, tuple) or not seq:
+            return None
+        k = seq[0]
+        if k == 'in':
+            return self.facts.get(('elems', seq))
+        if k in ('pop_front', 'pop_back', 'truncate', 'remove'):
+            return self._seq_elem_rng(seq[1], depth + 1)
+        if k in ('push_back', 'push_front'):
+            a = self._seq_elem_rng(seq[1], depth + 1)
+            if a is None:
+                return None
+            return a.hull(self.rng(seq[2]))
+        if k == 'phi':
+            a, b = self._seq_elem_rng(seq[2], depth + 1), self._seq_elem_rng(seq[3], depth + 1)
+            if a is None or b is None:
+                return None
+            return a.hull(b)
+        if k == 'seq_new':
+            return Iv(INF, -INF)      # empty: neutral element of the hull
+        return None
+
     def rng(self, t):
         k = id(t)
         h = self.memo.get(k)
@@ -398,6 +423,10 @@ class FSign:
             return fa.rng(t[2]).hull(fb.rng(t[3]))
         if k in ('some', 'payload'):
             return self.rng(t[1])
+        if k in ('get', 'front', 'back'):
+            r = self._seq_elem_rng(t[1])
+            if r is not None:
+                return r
         if k == 'fold':
             L, key, init, nxt = t[1], t[2], t[3], t[4]
             mu = ('mu', L, key)
